@@ -152,6 +152,20 @@ def run_c10_source(ctx: Ctx, M: AnnotateModel):
         ctx.ob("C10-R5", "annotate.SpanUpdater.get_diff_steps/minimal-char-diff", okc,
                "the diff must be the minimal character diff of (a, b): no time limit, no line-mode pre-pass, no clean-up "
                f"(keywords {kw})", node=calls[0] if calls else gd, mod=m)
+    # R-C10-5b: the fallback engine (difflib) compares characters as they are: no junk predicate, no automatic junk
+    for q_, mod_, fn_ in repo.all_funcs():
+        if mod_.name != "annotate":
+            continue
+        for c_ in [n for n in walk_local(fn_) if isinstance(n, ast.Call) and (dotted(n.func) or "").split(".")[-1] == "SequenceMatcher"]:
+            kw_ = {k.arg: k.value for k in c_.keywords}
+            junk = c_.args[0] if c_.args else kw_.get("isjunk")
+            aj = c_.args[3] if len(c_.args) > 3 else kw_.get("autojunk")
+            okj = (junk is None or (isinstance(junk, ast.Constant) and junk.value is None)) and isinstance(aj, ast.Constant) and aj.value is False
+            ctx.ob("C10-R5", f"{q_}/difflib-no-junk", okj,
+                   f"difflib must align every character (isjunk={norm(junk) if junk is not None else None}, autojunk={norm(aj) if aj is not None else 'default True'}): junk "
+                   "characters never anchor a match, so a plain character standing between two insertions is reported as replaced and its offsets collapse onto the "
+                   "start of the inserted material", node=c_, mod=mod_)
+    rule_monotone_table(ctx, repo, m)
     # R-C10-9: the offset table is built from a diff of the very strings the offsets refer to
     init = repo.func("annotate.SpanUpdater.__init__")
     if init is not None:
@@ -206,6 +220,221 @@ def run_c10_source(ctx: Ctx, M: AnnotateModel):
         uses = {x.id for x in ast.walk(up) if isinstance(x, ast.Name)}
         ctx.ob("C10-R6", "annotate.SpanUpdater.update/uses-side", all(p_ in uses for p_ in ps[1:]),
                "both the offset and the bisect side are used", node=up, mod=m, nontrivial=False)
+
+
+# ---- linear expressions over the loop state: {name: coefficient, 1: constant} ----------------
+def _lin(e: ast.AST, env: dict):
+    if isinstance(e, ast.Constant) and isinstance(e.value, int) and not isinstance(e.value, bool):
+        return {1: e.value}
+    if isinstance(e, ast.Name):
+        return dict(env[e.id]) if e.id in env else None
+    if isinstance(e, ast.BinOp) and isinstance(e.op, (ast.Add, ast.Sub)):
+        a, b = _lin(e.left, env), _lin(e.right, env)
+        if a is None or b is None:
+            return None
+        sg = 1 if isinstance(e.op, ast.Add) else -1
+        out = dict(a)
+        for k, v in b.items():
+            out[k] = out.get(k, 0) + sg * v
+        return out
+    if isinstance(e, ast.UnaryOp) and isinstance(e.op, ast.USub):
+        a = _lin(e.operand, env)
+        return None if a is None else {k: -v for k, v in a.items()}
+    return None
+
+
+def _sub(a: dict, b: dict) -> dict:
+    out = dict(a)
+    for k, v in b.items():
+        out[k] = out.get(k, 0) - v
+    return {k: v for k, v in out.items() if v}
+
+
+def _nonneg(d: dict, nonneg_syms) -> bool:
+    """d >= 0 for all values of the symbols, given that the symbols in `nonneg_syms` are >= 0"""
+    return all((k == 1 or k in nonneg_syms) and v >= 0 for k, v in d.items())
+
+
+def rule_monotone_table(ctx: Ctx, repo, m):
+    """C10-R12: the offset table maps plain offsets to source offsets monotonically.
+
+    The table builder folds the diff steps with two counters; call them offset (position in the plain text) and delta, and let
+    L = offset + delta (the position reached in the source).  Invariant: every value the ranges built so far can return is <= L.  It is
+    checked per path of the loop body, with the step's amount an arbitrary integer >= 0: a range appended on the path must start at the
+    current offset, its updater x -> c*x + e (c in {0,1}, read off the helper's return expression and the keyword bound by partial) must give
+    a value >= L at the range start and <= L' (L after the path) at the range end, and L' >= L.  The lists must be append-only: rewriting an
+    earlier range is outside the invariant."""
+    from ..paths import enumerate_paths
+    q = "annotate.SpanUpdater.__init__"
+    init = repo.func(q)
+    if init is None:
+        ctx.ob("C10-R12", f"{q}/located", False, "table builder not found", node=None, mod=m)
+        return
+    loop = next((x for x in init.body if isinstance(x, ast.For) and isinstance(x.iter, ast.Call) and isinstance(x.target, ast.Tuple) and len(x.target.elts) == 2), None)
+    helpers = {x.name: x for x in init.body if isinstance(x, ast.FunctionDef)}
+    helpers.update({x.targets[0].id: x.value for x in init.body if isinstance(x, ast.Assign) and len(x.targets) == 1 and isinstance(x.targets[0], ast.Name) and isinstance(x.value, ast.Lambda)})
+    lists = {}  # local name -> attribute it aliases
+    nums = {}
+    for x in init.body:
+        if isinstance(x, ast.Assign) and isinstance(x.value, ast.List) and not x.value.elts:
+            for t in x.targets:
+                if isinstance(t, ast.Name):
+                    lists[t.id] = next((norm(u) for u in x.targets if isinstance(u, ast.Attribute)), t.id)
+        if isinstance(x, ast.Assign) and len(x.targets) == 1 and isinstance(x.targets[0], ast.Attribute) and isinstance(x.value, ast.Name) and x.value.id in lists:
+            lists[x.value.id] = norm(x.targets[0])  # `xs = []` ... `self.xs = xs`
+        if isinstance(x, ast.Assign) and len(x.targets) == 1 and isinstance(x.targets[0], ast.Name) and isinstance(x.value, ast.Constant) and x.value.value == 0:
+            nums[x.targets[0].id] = 0
+    ok_struct = loop is not None and len(nums) == 2 and len(lists) >= 2
+    ctx.ob("C10-R12", f"{q}/shape", ok_struct, f"one loop over the diff steps folding two counters {sorted(nums)} into the parallel lists {sorted(lists)}",
+           node=loop or init, mod=m, nontrivial=False)
+    if not ok_struct:
+        return
+    AM = loop.target.elts[1].id if isinstance(loop.target.elts[1], ast.Name) else None
+    # which list holds the range starts and which the updaters: by what update() bisects / calls
+    up = repo.func("annotate.SpanUpdater.update")
+    starts_attr = upd_attr = None
+    if up is not None:
+        for n in walk_local(up):
+            if isinstance(n, ast.Call) and n.args and isinstance(n.args[0], ast.Attribute) and norm(n.args[0]).startswith("self.") and len(n.args) == 2 and not isinstance(n.func, ast.Attribute):
+                starts_attr = norm(n.args[0])
+            if isinstance(n, ast.Subscript) and isinstance(n.value, ast.Attribute) and norm(n.value).startswith("self.") and isinstance(n.ctx, ast.Load):
+                upd_attr = norm(n.value)
+    STARTS = next((k for k, v in lists.items() if v == starts_attr), None)
+    UPDS = next((k for k, v in lists.items() if v == upd_attr), None)
+    ctx.ob("C10-R12", f"{q}/lists", STARTS is not None and UPDS is not None and STARTS != UPDS,
+           f"update() bisects `{starts_attr}` and indexes `{upd_attr}`; the builder fills them through locals `{STARTS}` / `{UPDS}`", node=loop, mod=m, nontrivial=False)
+    if STARTS is None or UPDS is None or AM is None:
+        return
+    # append-only
+    bad = []
+    for n in walk_local(init):
+        if isinstance(n, (ast.Subscript, ast.Attribute)) and isinstance(n.ctx, (ast.Store, ast.Del)) and isinstance(n, ast.Subscript) and norm(n.value) in (STARTS, UPDS, starts_attr, upd_attr):
+            bad.append(n)
+        if isinstance(n, ast.Call) and isinstance(n.func, ast.Attribute) and norm(n.func.value) in (STARTS, UPDS, starts_attr, upd_attr) and n.func.attr != "append":
+            bad.append(n)
+        if isinstance(n, (ast.Assign, ast.AugAssign)) and n not in init.body and ({STARTS, UPDS} & assigned_names(n)):
+            bad.append(n)
+    ctx.ob("C10-R12", f"{q}/append-only", not bad,
+           "the range table is append-only (a range's updater is fixed by the step that created it); found "
+           f"{[norm(b)[:60] for b in bad]}: a range rewritten later can point before values already handed out, so the translation stops being monotone",
+           node=bad[0] if bad else loop, mod=m)
+
+    def updater(e: ast.AST, env):
+        """partial(F, k=E) / F as (c, e_lin)"""
+        if not (isinstance(e, ast.Call) and dotted(e.func) in ("partial", "functools.partial") and len(e.args) == 1):
+            return None
+        h = e.args[0]
+        if isinstance(h, ast.Name):
+            h = helpers.get(h.id) or repo.func(f"annotate.{h.id}") or repo.func(f"utils.{h.id}")
+        elif isinstance(h, ast.Attribute) and isinstance(h.value, ast.Name) and h.value.id in ("self", "SpanUpdater"):
+            h = repo.func(f"annotate.SpanUpdater.{h.attr}")
+            if h is not None and h.args.args and h.args.args[0].arg == "self":
+                return None
+        if isinstance(h, ast.FunctionDef):
+            from ..core import effective_body as _eb
+            hb = _eb(h)
+            if len(hb) == 1 and isinstance(hb[0], ast.Return):
+                ps, body = [a.arg for a in h.args.args], hb[0].value
+            else:
+                return None
+        elif False:
+            pass
+        elif isinstance(h, ast.Lambda):
+            ps, body = [a.arg for a in h.args.args], h.body
+        else:
+            return None
+        if not ps:
+            return None
+        henv = {ps[0]: {"x": 1}}
+        for k in e.keywords:
+            v = _lin(k.value, env)
+            if k.arg not in ps[1:] or v is None:
+                return None
+            henv[k.arg] = v
+        if set(ps[1:]) - set(henv):
+            return None
+        r = _lin(body, henv)
+        if r is None:
+            return None
+        c = r.pop("x", 0)
+        return c, r
+
+    c1, c2 = sorted(nums)
+    n_paths = n_ranges = 0
+    for p in enumerate_paths(loop.body):
+        if p.exit not in ("fall", "continue"):
+            ctx.ob("C10-R12", f"{q}/path-exit", False, f"a path leaves the fold early ({p.exit}): the remaining steps are not recorded", node=p.exit_node or loop, mod=m)
+            continue
+        n_paths += 1
+        env = {c1: {c1: 1}, c2: {c2: 1}, AM: {AM: 1}}
+        L0 = {c1: 1, c2: 1}
+        pend_start = None
+        ranges = []
+        uenv = {}
+        okp, why, at = True, "", loop
+        for ev in p.events:
+            if ev[0] != "stmt":
+                continue
+            st = ev[1]
+            if isinstance(st, ast.AugAssign) and isinstance(st.target, ast.Name) and st.target.id in nums and isinstance(st.op, (ast.Add, ast.Sub)):
+                v = _lin(st.value, env)
+                if v is None:
+                    okp, why, at = False, f"`{norm(st)}` is not linear in the counters and the step amount", st
+                    break
+                cur = env[st.target.id]
+                sg = 1 if isinstance(st.op, ast.Add) else -1
+                env[st.target.id] = {k: cur.get(k, 0) + sg * v.get(k, 0) for k in set(cur) | set(v)}
+            elif isinstance(st, ast.Assign) and len(st.targets) == 1 and isinstance(st.targets[0], ast.Name) and isinstance(st.value, ast.Call) \
+                    and dotted(st.value.func) in ("partial", "functools.partial"):
+                uenv[st.targets[0].id] = updater(st.value, env)
+            elif isinstance(st, ast.Assign) and any(isinstance(t, ast.Name) and t.id in nums for t in st.targets):
+                v = _lin(st.value, env)
+                if v is None or len(st.targets) != 1:
+                    okp, why, at = False, f"`{norm(st)[:60]}` rebinds a counter to a value that is not linear in the counters", st
+                    break
+                env[st.targets[0].id] = v
+            elif isinstance(st, ast.Expr) and isinstance(st.value, ast.Call) and isinstance(st.value.func, ast.Attribute) and st.value.func.attr == "append" \
+                    and norm(st.value.func.value) in (STARTS, UPDS) and len(st.value.args) == 1:
+                if norm(st.value.func.value) == STARTS:
+                    pend_start = (_lin(st.value.args[0], env), st)
+                else:
+                    a0 = st.value.args[0]
+                    u = uenv.get(a0.id) if isinstance(a0, ast.Name) and a0.id in uenv else updater(a0, env)
+                    if pend_start is None or u is None or pend_start[0] is None:
+                        okp, why, at = False, f"`{norm(st)[:70]}`: not `partial(<local helper returning a linear expression>, k=<linear>)` right after the range start", st
+                        break
+                    ranges.append((pend_start[0], u, dict(env[c1]), dict(env[c2]), st))
+                    pend_start = None
+        if okp and pend_start is not None:
+            okp, why, at = False, "a range start is appended without its updater: the lists go out of step", pend_start[1]
+        if okp:
+            # ranges on this path: each starts at the offset counter's value when appended and lasts until the counter's final value
+            off_c = c1 if any(r[0] == r[2] for r in ranges) or not ranges else c2
+            if ranges and not all(r[0] == (r[2] if off_c == c1 else r[3]) for r in ranges):
+                okp, why, at = False, "a range does not start at the current value of the offset counter: ranges no longer partition the plain text", ranges[0][4]
+            Lend = {k: env[c1].get(k, 0) + env[c2].get(k, 0) for k in set(env[c1]) | set(env[c2])}
+            if okp and len(ranges) > 1:
+                okp, why, at = False, "more than one range per step", ranges[1][4]
+            if okp and ranges:
+                start, (c, e), _a, _b, st = ranges[0]
+                end = env[off_c]
+                if c not in (0, 1):
+                    okp, why, at = False, f"updater has slope {c}", st
+                else:
+                    lo = {k: c * start.get(k, 0) + e.get(k, 0) for k in set(start) | set(e)}
+                    hi = {k: c * end.get(k, 0) + e.get(k, 0) for k in set(end) | set(e)}
+                    if not _nonneg(_sub(lo, L0), {AM}):
+                        okp, why, at = False, f"the range's first value minus the source position reached so far is {_sub(lo, L0)}: it can lie before values already handed out", st
+                    elif not _nonneg(_sub(Lend, hi), {AM}):
+                        okp, why, at = False, f"the source position after the step minus the range's last value is {_sub(Lend, hi)}: the next range can start before it", st
+                    n_ranges += 1
+            if okp and not _nonneg(_sub(Lend, L0), {AM}):
+                okp, why, at = False, f"the source position (offset + delta) moves by {_sub(Lend, L0)} on this path: it must never move backwards", loop
+        if not okp:
+            ctx.ob("C10-R12", f"{q}/monotone", False, why, node=at, mod=m)
+    ctx.ob("C10-R12", f"{q}/monotone-invariant", n_paths >= 3 and n_ranges >= 2,
+           f"{n_paths} paths of the fold preserve `every value handed out so far <= {c1} + {c2}` ({n_ranges} range-creating paths): the translation is monotone "
+           "and ends at the source length whenever the steps are a diff of (plain, source)", node=loop, mod=m)
 
 
 def run(ctx: Ctx):
